@@ -60,6 +60,9 @@ type fileSpec struct {
 	// Same: byte-identical to the file of the same name in the previous Write
 	// of the chain (same Tag and Size as there).
 	Same bool `json:"same_as_in_previous_write,omitempty"`
+	// Nil: the map value handed to Write is a nil slice (Size is 0) rather
+	// than an empty non-nil one. Either way the file must exist with size 0.
+	Nil bool `json:"nil_content,omitempty"`
 }
 
 type writeSpec struct {
@@ -75,7 +78,14 @@ func (w writeSpec) shape() string {
 		if i > 0 {
 			sb.WriteByte(',')
 		}
-		fmt.Fprintf(&sb, "%s:%d", f.Name, f.Size)
+		nm := f.Name
+		if len(nm) > 40 {
+			nm = fmt.Sprintf("%s...(%d chars)", nm[:12], len(nm))
+		}
+		fmt.Fprintf(&sb, "%s:%d", nm, f.Size)
+		if f.Nil {
+			sb.WriteString("nil")
+		}
 		if f.Same {
 			sb.WriteByte('=')
 		}
@@ -146,6 +156,10 @@ func (w writeSpec) digests() map[string]string {
 func (w writeSpec) files() map[string][]byte {
 	m := make(map[string][]byte, len(w.Files))
 	for _, f := range w.Files {
+		if f.Nil {
+			m[f.Name] = nil
+			continue
+		}
 		m[f.Name] = gen(f.Tag, f.Size)
 	}
 	return m
@@ -225,10 +239,160 @@ func carryOver(chain []*writeSpec, rng *mon.RNG) {
 		for i := range chain[j].Files {
 			f := &chain[j].Files[i]
 			if pf, ok := prev[f.Name]; ok && n > 0 {
-				f.Size, f.Tag, f.Same = pf.Size, pf.Tag, true
+				f.Size, f.Tag, f.Nil, f.Same = pf.Size, pf.Tag, pf.Nil, true
 				n--
 			}
 		}
+	}
+}
+
+var oddNames = map[string]string{
+	"a.crt": " spaced  name (1).crt",
+	"b.key": ".b.key",
+	"c.pem": "ключ-鍵-clé.pem",
+	"d.txt": strings.Repeat("L", 236) + ".txt", // 240 bytes, below NAME_MAX
+}
+
+// contentShapes varies the content shapes and names of a whole history (the
+// Writes in the order in which one target sees them), by case index so that
+// every shape occurs in every tier and seed:
+//
+//	0,1 nothing
+//	2   zero-length content ([]byte{}) for one name, alternating between
+//	    successive Writes (so a shared name goes non-empty -> empty -> non-empty)
+//	3   the same with nil content
+//	4   every file of every second Write is empty (nil and []byte{} mixed)
+//	5   unusual but legal names (spaces, leading dot, unicode, 240 bytes long)
+//	6   unusual names and alternating zero-length content
+//	7   one more 1 MiB file in every second Write
+//
+// An empty file is part of the set: it must exist, with size 0.
+func contentShapes(all []*writeSpec, idx int) {
+	mode := (idx + int(mon.Seed())) % 8
+	phase := (idx / 8) % 2
+	find := func(w *writeSpec, names ...string) int {
+		for _, n := range names {
+			for i, f := range w.Files {
+				if f.Name == n {
+					return i
+				}
+			}
+		}
+		return -1
+	}
+	// toggle: a name shared with the Write before flips between non-empty and
+	// empty; without a shared name, c.pem / b.key is emptied in every second Write
+	toggle := func(j int, useNil bool) {
+		w := all[j]
+		if j > 0 {
+			for _, n := range []string{"c.pem", "b.key", "a.crt", "d.txt"} {
+				pi, ci := find(all[j-1], n), find(w, n)
+				if pi < 0 || ci < 0 || all[j-1].Files[pi].Size >= 1<<20 || w.Files[ci].Size >= 1<<20 {
+					continue
+				}
+				f := &w.Files[ci]
+				if all[j-1].Files[pi].Size == 0 {
+					if f.Size == 0 || f.Same {
+						f.Size, f.Tag, f.Nil = 64+j, f.Tag+fmt.Sprintf(".ne%d", j), false
+					}
+				} else {
+					f.Size, f.Nil = 0, useNil
+				}
+				return
+			}
+		}
+		if (j+phase)%2 != 0 {
+			return
+		}
+		if i := find(w, "c.pem", "b.key"); i >= 0 {
+			w.Files[i].Size, w.Files[i].Nil = 0, useNil
+		}
+	}
+	for j, w := range all {
+		switch mode {
+		case 2, 6:
+			toggle(j, false)
+		case 3:
+			toggle(j, true)
+		case 4:
+			if (j+phase)%2 == 0 {
+				for i := range w.Files {
+					if w.Files[i].Size < 1<<20 {
+						w.Files[i].Size, w.Files[i].Nil = 0, i%2 == 1
+					}
+				}
+			}
+		case 7:
+			if (j+phase)%2 == 0 && len(w.Files) > 0 && len(w.Files) < 4 && w.Kind != "big" {
+				f := w.Files[0]
+				w.Files = append(w.Files, fileSpec{Name: "zz-large.bin", Size: 1 << 20, Tag: f.Tag + ".large"})
+			}
+		}
+	}
+	// Same is re-derived: byte-identical to the file of that name in the Write before
+	for j, w := range all {
+		for i := range w.Files {
+			f := &w.Files[i]
+			f.Same = false
+			if f.Size == 0 {
+				f.Tag = "" // all empty contents are equal
+			} else {
+				f.Nil = false
+			}
+			if j > 0 {
+				if pi := find(all[j-1], f.Name); pi >= 0 {
+					p := all[j-1].Files[pi]
+					f.Same = p.Size == f.Size && p.Tag == f.Tag
+				}
+			}
+		}
+	}
+	if mode == 5 || mode == 6 {
+		for _, w := range all {
+			for i := range w.Files {
+				if o, ok := oddNames[w.Files[i].Name]; ok {
+					w.Files[i].Name = o
+				}
+			}
+		}
+	}
+}
+
+// countShapes records the content shapes and name classes of one Write.
+func countShapes(prefix string, first bool, w writeSpec) {
+	empties := 0
+	for _, f := range w.Files {
+		switch {
+		case f.Nil:
+			rec.Count(prefix+".content.nil", 1)
+			empties++
+		case f.Size == 0:
+			rec.Count(prefix+".content.zero-length", 1)
+			empties++
+		case f.Size >= 1<<20:
+			rec.Count(prefix+".content.1MiB", 1)
+		}
+		switch {
+		case strings.Contains(f.Name, " "):
+			rec.Count(prefix+".name.with-spaces", 1)
+		case strings.HasPrefix(f.Name, "."):
+			rec.Count(prefix+".name.leading-dot", 1)
+		case len(f.Name) >= 200:
+			rec.Count(prefix+".name.240-bytes", 1)
+		default:
+			for _, r := range f.Name {
+				if r > 127 {
+					rec.Count(prefix+".name.unicode", 1)
+					break
+				}
+			}
+		}
+	}
+	if empties > 0 && first {
+		rec.Count(prefix+".content.empty-file-in-first-write", 1)
+	}
+	if empties > 0 && empties == len(w.Files) {
+		rec.Count(prefix+".content.all-files-empty", 1)
 	}
 }
 
@@ -237,7 +401,15 @@ func countOverlap(prefix string, prev, cur writeSpec) {
 	pm := prev.digests()
 	cm := cur.digests()
 	for n, d := range cm {
-		switch pd, ok := pm[n]; {
+		pd, ok := pm[n]
+		if ok && strings.HasPrefix(d, "0:") != strings.HasPrefix(pd, "0:") {
+			if strings.HasPrefix(d, "0:") {
+				rec.Count(prefix+".non-empty-to-empty", 1)
+			} else {
+				rec.Count(prefix+".empty-to-non-empty", 1)
+			}
+		}
+		switch {
 		case !ok:
 			rec.Count(prefix+".name-added", 1)
 		case pd == d:
@@ -347,6 +519,17 @@ func buildPlan() []plan {
 			chain = append(chain, &p.More[j])
 		}
 		carryOver(chain, crng)
+		{
+			var all []*writeSpec
+			for j := range p.Writes {
+				all = append(all, &p.Writes[j])
+			}
+			all = append(all, &p.Rec1)
+			for j := range p.More {
+				all = append(all, &p.More[j])
+			}
+			contentShapes(append(all, &p.Rec2), idx)
+		}
 		out = append(out, p)
 	}
 	return out
@@ -1167,6 +1350,10 @@ func (c *caseRun) run() {
 	for j := 1; j < len(c.p.Writes); j++ {
 		countOverlap("successive-writes", c.p.Writes[j-1], c.p.Writes[j])
 	}
+	for j, w := range c.p.Writes {
+		countShapes("writes", j == 0, w)
+	}
+	countShapes("recovery-writes", true, c.p.Rec1)
 	for j, w := range c.p.More {
 		pw := c.p.Rec1
 		if j > 0 {
@@ -1395,7 +1582,7 @@ func TestCheck(t *testing.T) {
 	}
 	rec = mon.Open("C18")
 	defer rec.Close()
-	rec.Note("rule", "A case index is one sequence of 1-4 Writes by one Dir (file sets: empty, single file, three files, three files overlapping the names of the others with different contents, one 1 MiB file; in 3 of 4 sequences successive Writes additionally share one or two names with byte-identical content, so that most successive versions show all four relations: same name same content, same name different content, name dropped, name added; quick: all 5 sequences of length 1, all 25 of length 2, 10 seeded ones of length 3-4; thorough: all 780 kind sequences of length 1-4 plus 1220 seeded sequences of random sets incl. zero-length files). A child process runs the sequence crash-free and looks at the target at every hook hit (H hits), while a goroutine of that child polls the target in a tight loop (a concurrent reader; only views whose link is unchanged across the read are judged; also in the recovery children of crash points in the last Write); then for EVERY n in 1..H a fresh child runs the sequence and dies (os.Exit in the hook) at hit n = one evaluation; the parent looks at the target, a fresh process with a fresh Dir performs 1-3 further Writes (watched at every hook hit), and for every n that lies in the LAST Write of the sequence (a crash in an earlier Write is the same history as a crash in the last Write of a shorter sequence) the first of those recovery Writes is itself crashed at EVERY one of its hits j (state restored from a snapshot) and recovered by yet another fresh Dir = one evaluation per (n, j). Oracle at every look: target absent (only while no Write of the history has returned nil) or resolving to a directory whose names and contents equal exactly one complete Write argument of the history so far; after every Write that returns nil the target shows exactly its set; every recovery Write returns nil; crash-free: exactly one version directory in the base directory after each Write. distinct key = (names and sizes of the sequence, n[, recovery set, j]); non-trivial = the crash point is not the very first hook of a Write (something of the interrupted Write is already on disk) or it is a second-level crash.")
+	rec.Note("rule", "A case index is one sequence of 1-4 Writes by one Dir (file sets: empty, single file, three files, three files overlapping the names of the others with different contents, one 1 MiB file; in 3 of 4 sequences successive Writes additionally share one or two names with byte-identical content, so that most successive versions show all four relations: same name same content, same name different content, name dropped, name added; by case index the histories additionally get zero-length ([]byte{}) or nil content for a name (alternating non-empty/empty between successive Writes), all-empty sets, unusual legal names (spaces, leading dot, unicode, 240 bytes) and extra 1 MiB files - an empty file belongs to the set and must exist with size 0; quick: all 5 sequences of length 1, all 25 of length 2, 10 seeded ones of length 3-4; thorough: all 780 kind sequences of length 1-4 plus 1220 seeded sequences of random sets incl. zero-length files). A child process runs the sequence crash-free and looks at the target at every hook hit (H hits), while a goroutine of that child polls the target in a tight loop (a concurrent reader; only views whose link is unchanged across the read are judged; also in the recovery children of crash points in the last Write); then for EVERY n in 1..H a fresh child runs the sequence and dies (os.Exit in the hook) at hit n = one evaluation; the parent looks at the target, a fresh process with a fresh Dir performs 1-3 further Writes (watched at every hook hit), and for every n that lies in the LAST Write of the sequence (a crash in an earlier Write is the same history as a crash in the last Write of a shorter sequence) the first of those recovery Writes is itself crashed at EVERY one of its hits j (state restored from a snapshot) and recovered by yet another fresh Dir = one evaluation per (n, j). Oracle at every look: target absent (only while no Write of the history has returned nil) or resolving to a directory whose names and contents equal exactly one complete Write argument of the history so far; after every Write that returns nil the target shows exactly its set; every recovery Write returns nil; crash-free: exactly one version directory in the base directory after each Write. distinct key = (names and sizes of the sequence, n[, recovery set, j]); non-trivial = the crash point is not the very first hook of a Write (something of the interrupted Write is already on disk) or it is a second-level crash.")
 	req := []string{"observe.hits", "reader.stable-views-complete", "reader-recovery.stable-views-complete", "recovery.ok", "second-recovery.ok", "nocrash.exactly-one-version-dir", "crash.state.absent-before-first-write", "crash.state.earlier-set", "crash.state.new-set"}
 	for _, p := range allPoints {
 		req = append(req, "crashpoint."+p, "observe.point."+p)
@@ -1406,6 +1593,11 @@ func TestCheck(t *testing.T) {
 	for _, r := range reuseRelations {
 		req = append(req, "reuse.write."+r)
 	}
+	for _, r := range []string{"content.zero-length", "content.nil", "content.1MiB", "content.empty-file-in-first-write", "content.all-files-empty", "name.with-spaces", "name.leading-dot", "name.unicode", "name.240-bytes"} {
+		req = append(req, "writes."+r)
+	}
+	req = append(req, "recovery-writes.content.zero-length", "recovery-writes.content.nil", "successive-writes.non-empty-to-empty", "successive-writes.empty-to-non-empty",
+		"errfault.writes.content.zero-length", "errfault.writes.content.nil", "reuse.content.zero-length", "reuse.content.nil")
 	for _, r := range []string{"same-name-same-content", "same-name-different-content", "name-dropped", "name-added"} {
 		req = append(req, "successive-writes."+r, "successive-recovery-writes."+r, "errfault.successive-writes."+r)
 	}
